@@ -66,6 +66,9 @@ Section Budget.
       destruct (bump_node max_nodes st) as [s|] eqn:B; [|discriminate].
       destruct Hq0 as [<-|[]]. apply validate_range_depth in Hv. lia.
     - simpl in Hv. destruct (max_depth <? depth)%nat eqn:E; [discriminate|].
+      destruct (bump_node max_nodes st) as [s|] eqn:B; [|discriminate].
+      destruct Hq0 as [<-|[]]. apply validate_range_depth in Hv. lia.
+    - simpl in Hv. destruct (max_depth <? depth)%nat eqn:E; [discriminate|].
       simpl in Hq0. apply in_flat_map in Hq0 as [g [Hg Hq0]]. rewrite Forall_forall in H.
       destruct (fold_some (fun g' st => vf g' (S depth) st) fs _ _ Hv g Hg) as [s [s' Hs]].
       exact (H g Hg _ _ _ Hs q0 Hq0).
